@@ -219,3 +219,37 @@ func verifLemmaComplementInvolution(p *Pairing, l Letter) (back Letter, ok1, ok2
 func verifLemmaNucleicTable(n *nucleic, b Letter) (t []Letter) {
 	return n.ComplementTable()
 }
+
+// ---- quality encodings (C18, C01) ----------------------------------------------------
+// Encodings: None=-1 Sanger=0 Solexa=1 Illumina1_3=2 Illumina1_5=3 Illumina1_8=4 Illumina1_9=5
+
+//@ func (Qphred).Encode
+//@   property C18 C01
+//@   ensures [sanger] (e == 0 || e == 4 || e == 5) && qp <= 93 ==> q == qp + 33
+//@   ensures [ill13]  e == 2 && qp <= 62 ==> q == qp + 64
+//@   ensures [ill15]  e == 3 && 2 <= qp && qp <= 62 ==> q == qp + 64
+
+//@ func (Encoding).DecodeToQphred
+//@   property C18 C01
+//@   requires -1 <= e && e <= 5
+//@   ensures [sanger] (e == 0 || e == 4 || e == 5) && q >= 33 ==> result == q - 33
+//@   ensures [ill]    (e == 2 || e == 3) && q >= 64 ==> result == q - 64
+
+// Decoding the encoded byte returns the score on each Phred-offset encoding's printable range.
+//@ func verifLemmaPhredEncDec
+//@   property C18 C01
+//@   lemma
+//@   requires e == 0 || e == 2 || e == 3 || e == 4 || e == 5
+//@   requires (e == 0 || e == 4 || e == 5) ==> q <= 93
+//@   requires e == 2 ==> q <= 62
+//@   requires e == 3 ==> 2 <= q && q <= 62
+//@   ensures  result == q
+func verifLemmaPhredEncDec(q Qphred, e Encoding) Qphred { return e.DecodeToQphred(q.Encode(e)) }
+
+// Solexa scores under the Solexa encoding: printable range -5..62.
+//@ func verifLemmaSolexaEncDec
+//@   property C18
+//@   lemma
+//@   requires -5 <= q && q <= 62
+//@   ensures  result == q
+func verifLemmaSolexaEncDec(q Qsolexa) Qsolexa { return Solexa.DecodeToQsolexa(q.Encode(Solexa)) }
